@@ -303,6 +303,18 @@ def op_table():
 
     T["outer"] = (2, outer_gen, lambda xp, c, a, kw: xp.linalg.outer(a[0], a[1]), lambda a, kw: np.outer(a[0], a[1]))
 
+    def unstack_gen(rng, shapes):
+        s = shapes[0]
+        cands = [i for i, n in enumerate(s) if 2 <= n <= 4]
+        if not cands:
+            return None
+        ax = rng.choice(cands)
+        return {"axis": ax, "pick": rng.randrange(s[ax])}
+
+    # a multi-output operation (one op producing shape[axis] arrays); one of its outputs is used
+    T["unstack_pick"] = (1, unstack_gen, lambda xp, c, a, kw: xp.unstack(a[0], axis=kw["axis"])[kw["pick"]],
+                         lambda a, kw: np.moveaxis(a[0], kw["axis"], 0)[kw["pick"]])
+
     def rechunk_gen(rng, shapes):
         s = shapes[0]
         if len(s) == 0:
@@ -358,7 +370,7 @@ FAMILIES = {
     "elementwise": ["negative", "abs", "square", "add_scalar", "mul_scalar", "add", "subtract", "multiply", "maximum", "where_gt", "astype", "map_blocks_double"],
     "reduction": ["r_sum", "r_prod", "r_max", "r_min", "r_mean", "argmax"],
     "scan": ["cumulative_sum"],
-    "manipulation": ["concat", "stack", "repeat", "roll", "flip", "permute_dims", "expand_dims", "squeeze", "broadcast_to", "reshape", "pad", "tril"],
+    "manipulation": ["concat", "stack", "unstack_pick", "repeat", "roll", "flip", "permute_dims", "expand_dims", "squeeze", "broadcast_to", "reshape", "pad", "tril"],
     "indexing": ["index"],
     "linalg": ["matmul", "outer"],
     "rechunk": ["rechunk"],
@@ -427,6 +439,44 @@ def gen_program(rng, nstmts=None, families=None, maxdim=3, maxlen=9, allow_zero=
     outs = [cand[-1]] + ([rng.choice(cand)] if nouts == 2 and len(cand) > 1 else [])
     outs = list(dict.fromkeys(outs))
     return {"inputs": inputs, "stmts": stmts, "outs": outs}
+
+
+def gen_pattern_program(rng):
+    """Structured programs that hit corners the uniform generator rarely reaches: a multi-output op feeding unary chains,
+    diamonds with repeated arguments, a requested intermediate that is another requested array's only input."""
+    T = ops()
+    kind = rng.choice(["multi_output_chain", "diamond", "requested_intermediate"])
+    n0, n1 = rng.randint(2, 4), rng.randint(2, 6)
+    shape = (n0, n1)
+    inp = {"var": "x0", "shape": list(shape), "chunks": list(gen_chunks(rng, shape)), "dtype": "float64", "seed": rng.randrange(10**6)}
+    un = lambda: rng.choice(["negative", "abs", "square", "add_scalar", "mul_scalar"])
+    stmts = []
+    def add(op, args, kw=None):
+        var = f"v{len(stmts)}"
+        stmts.append({"var": var, "op": op, "args": args, "kw": kw or {}})
+        return var
+    if kind == "multi_output_chain":
+        a = add(un(), ["x0"]) if rng.random() < 0.5 else "x0"
+        u = add("unstack_pick", [a], {"axis": 0, "pick": rng.randrange(n0)})
+        b = add(un(), [u])
+        c = add(un(), [b]) if rng.random() < 0.5 else b
+        outs = [c]
+        if rng.random() < 0.4:
+            w = add("unstack_pick", [a], {"axis": 0, "pick": rng.randrange(n0)})
+            outs.append(add(un(), [w]))
+    elif kind == "diamond":
+        a = add(un(), ["x0"])
+        b = add(un(), [a])
+        c = add(un(), [a])
+        d = add(rng.choice(["add", "multiply", "subtract"]), [b, c] if rng.random() < 0.7 else [b, b])
+        outs = [add(un(), [d])]
+    else:
+        a = add(un(), ["x0"])
+        c = add(un(), [a])
+        d = add(un(), [c])
+        e = add(un(), [d]) if rng.random() < 0.5 else d
+        outs = [e, c] if rng.random() < 0.7 else [e, d, c]
+    return {"inputs": [inp], "stmts": stmts, "outs": list(dict.fromkeys(outs))}
 
 
 def shadow_eval(prog):
